@@ -443,6 +443,15 @@ impl Scenario for In {
 
     fn check(&mut self, _quiescent: bool) -> Result<(), Violation> {
         self.conn.pump();
+        // application state: start the configured sends as soon as the sink exists
+        if !self.app_started && !self.cfg.app_sends.is_empty() && self.handshaken() {
+            self.app_started = true;
+            if let Some(sink) = self.conn.sink() {
+                for (j, k) in self.cfg.app_sends.clone().into_iter().enumerate() {
+                    crate::outbound::start_sender(&sink, k, j, self.app.clone());
+                }
+            }
+        }
         // prologue handlers complete immediately
         if !self.prologue_left.is_empty() || (self.explored == 0 && !self.cfg.prologue.is_empty()) {
             self.conn.gates.open_all(GateOutcome::Ok);
